@@ -4344,6 +4344,63 @@ M('C08', 'notation-one-del-lengths-swapped', SS, '        self.flags = packet[:1
   '        self.flags = packet[:1]\n        vlen = self.bytes_to_int(packet[4:6])\n        nlen = self.bytes_to_int(packet[6:8])\n        name_end = 8 + nlen\n        value_end = name_end + vlen\n        self.name = packet[8:name_end]\n        self.value = packet[name_end:value_end]\n        del packet[:value_end]\n', 'C08.c')
 M('C08', 'notation-one-del-hole-consumed', SS, '        self.flags = packet[:1]\n        del packet[:4]\n        nlen = self.bytes_to_int(packet[:2])\n        del packet[:2]\n        vlen = self.bytes_to_int(packet[:2])\n        del packet[:2]\n        self.name = packet[:nlen]\n        del packet[:nlen]\n        self.value = packet[:vlen]\n        del packet[:vlen]\n',
   '        self.flags = packet[:1]\n        nlen = self.bytes_to_int(packet[4:6])\n        vlen = self.bytes_to_int(packet[6:8])\n        name_end = 8 + nlen\n        value_end = name_end + vlen\n        self.name = packet[8:name_end]\n        self.value = packet[name_end + 1:value_end + 1]\n        del packet[:value_end + 1]\n', 'C08.a')
+# wave 5: key material dispatch (C08.g), flag subpacket widths (C08.e), EC point widths (C08.c), measured remainder (C08.d), one read / several fields
+M('C08', 'material-priv-entry-public-class', PK, '            (False, PubKeyAlgorithm.FormerlyElGamalEncryptOrSign): ElGPriv,',
+  '            (False, PubKeyAlgorithm.FormerlyElGamalEncryptOrSign): ElGPub,', 'C08.g')
+M('C08', 'material-ecdh-priv-entry-public', PK, '            (False, PubKeyAlgorithm.ECDH): ECDHPriv,',
+  '            (False, PubKeyAlgorithm.ECDH): ECDHPub,', 'C08.g')
+M('C08', 'material-pub-entry-private-class', PK, '            (True, PubKeyAlgorithm.DSA): DSAPub,',
+  '            (True, PubKeyAlgorithm.DSA): DSAPriv,', 'C08.g')
+M('C08', 'material-priv-entry-other-algorithm', PK, '            (False, PubKeyAlgorithm.ElGamal): ElGPriv,',
+  '            (False, PubKeyAlgorithm.ElGamal): DSAPriv,', 'C08.g')
+M('C08', 'material-fallback-always-public', PK, '(km or (OpaquePubKey if self.public else OpaquePrivKey))()',
+  '(km or OpaquePubKey)()', 'C08.g')
+M('C08', 'flags-pad-to-header-length', SS, "        if len(_bytes) < len(self):\n            _bytes += b'\\x00' * (len(self) - len(_bytes))\n        return _bytes\n",
+  "        if len(_bytes) < self.header.length:\n            _bytes += b'\\x00' * (self.header.length - len(_bytes))\n        return _bytes\n", 'C08.e')
+M('C08', 'flags-no-padding', SS, "        if len(_bytes) < len(self):\n            _bytes += b'\\x00' * (len(self) - len(_bytes))\n        return _bytes\n",
+  '        return _bytes\n', 'C08.e')
+M('C08', 'flags-pad-one-short', SS, "        if len(_bytes) < len(self):\n            _bytes += b'\\x00' * (len(self) - len(_bytes))\n        return _bytes\n",
+  "        if len(_bytes) < len(self) - 1:\n            _bytes += b'\\x00' * (len(self) - 1 - len(_bytes))\n        return _bytes\n", 'C08.e')
+M('C08', 'flags-value-wide-as-length', SS, '        _bytes += self.int_to_bytes(sum(self.flags))\n        # null-pad',
+  '        _bytes += self.int_to_bytes(sum(self.flags), self.header.length)\n        # null-pad', 'C08.e')
+M('C08', 'ecpoint-width-floor', FL, '        ct.bytelen = (bitlen + 7) // 8',
+  '        ct.bytelen = bitlen // 8', 'C08.c')
+M('C08', 'ecpoint-width-plus-8', FL, '        ct.bytelen = (bitlen + 7) // 8',
+  '        ct.bytelen = (bitlen + 8) // 8', 'C08.c')
+M('C08', 'ecpoint-writer-minimal-width', FL, '            b += MPIs.int_to_bytes(self.x, self.bytelen)\n            b += MPIs.int_to_bytes(self.y, self.bytelen)',
+  '            b += MPIs.int_to_bytes(self.x, self.bytelen)\n            b += MPIs.int_to_bytes(self.y)', 'C08.c')
+T('C08', 'twin-flags-ljust', SS, "        if len(_bytes) < len(self):\n            _bytes += b'\\x00' * (len(self) - len(_bytes))\n        return _bytes\n",
+  "        return _bytes.ljust(len(self), b'\\x00')\n")
+T('C08', 'twin-ecpoint-width-ceil-div', FL, '        ct.bytelen = (bitlen + 7) // 8',
+  '        ct.bytelen = -(-bitlen // 8)')
+T('C08', 'twin-ecdsa-oid-one-concat', FL, "        oidlen = packet[0]\n        del packet[0]\n        _oid = bytearray(b'\\x06')\n        _oid.append(oidlen)\n        _oid += bytearray(packet[:oidlen])\n        oid, _  = decoder.decode(bytes(_oid))\n        self.oid = EllipticCurveOID(oid)\n        del packet[:oidlen]\n\n        self.p = ECPoint(packet)\n        if self.p.format != ECPointFormat.Standard:",
+  "        oidlen = packet[0]\n        del packet[0]\n        oid, _ = decoder.decode(b'\\x06' + bytes([oidlen]) + bytes(packet[:oidlen]))\n        curve = EllipticCurveOID(oid)\n        del packet[:oidlen]\n        self.oid = curve\n\n        self.p = ECPoint(packet)\n        if self.p.format != ECPointFormat.Standard:")
+M('C08', 'ecdsa-oid-not-consumed', FL, "        oidlen = packet[0]\n        del packet[0]\n        _oid = bytearray(b'\\x06')\n        _oid.append(oidlen)\n        _oid += bytearray(packet[:oidlen])\n        oid, _  = decoder.decode(bytes(_oid))\n        self.oid = EllipticCurveOID(oid)\n        del packet[:oidlen]\n\n        self.p = ECPoint(packet)\n        if self.p.format != ECPointFormat.Standard:",
+  "        oidlen = packet[0]\n        del packet[0]\n        oid, _ = decoder.decode(b'\\x06' + bytes([oidlen]) + bytes(packet[:oidlen]))\n        self.oid = EllipticCurveOID(oid)\n\n        self.p = ECPoint(packet)\n        if self.p.format != ECPointFormat.Standard:", 'C08.a')
+M('C08', 'ecdsa-oid-consumed-short', FL, "        oidlen = packet[0]\n        del packet[0]\n        _oid = bytearray(b'\\x06')\n        _oid.append(oidlen)\n        _oid += bytearray(packet[:oidlen])\n        oid, _  = decoder.decode(bytes(_oid))\n        self.oid = EllipticCurveOID(oid)\n        del packet[:oidlen]\n\n        self.p = ECPoint(packet)\n        if self.p.format != ECPointFormat.Standard:",
+  "        oidlen = packet[0]\n        del packet[0]\n        oid, _ = decoder.decode(b'\\x06' + bytes([oidlen]) + bytes(packet[:oidlen]))\n        self.oid = EllipticCurveOID(oid)\n        del packet[:oidlen - 1]\n\n        self.p = ECPoint(packet)\n        if self.p.format != ECPointFormat.Standard:", 'C08.a')
+T('C08', 'twin-image-struct-size', UA, "        with memoryview(packet) as _head:\n            _, self.version, self.iencoding, _, _, _ = struct.unpack_from('<hbbiii', _head[:16].tobytes())\n        del packet[:16]\n\n        self.image = packet[:(self.header.length - 17)]\n        del packet[:(self.header.length - 17)]",
+  "        hlen = struct.calcsize('<hbbiii')\n        _, self.version, self.iencoding, _, _, _ = struct.unpack_from('<hbbiii', bytes(packet[:hlen]))\n        del packet[:hlen]\n\n        ilen = self.header.length - (1 + hlen)\n        self.image = packet[:ilen]\n        del packet[:ilen]")
+M('C08', 'image-struct-size-remainder-off', UA, "        with memoryview(packet) as _head:\n            _, self.version, self.iencoding, _, _, _ = struct.unpack_from('<hbbiii', _head[:16].tobytes())\n        del packet[:16]\n\n        self.image = packet[:(self.header.length - 17)]\n        del packet[:(self.header.length - 17)]",
+  "        hlen = struct.calcsize('<hbbiii')\n        _, self.version, self.iencoding, _, _, _ = struct.unpack_from('<hbbiii', bytes(packet[:hlen]))\n        del packet[:hlen]\n\n        ilen = self.header.length - hlen\n        self.image = packet[:ilen]\n        del packet[:ilen]", 'C08.d')
+M('C08', 'sig-two-fields-one-octet', PK, '        self.pubalg = packet[0]\n        del packet[0]\n\n        self.halg = packet[0]\n        del packet[0]\n\n        self.subpackets.parse(packet)\n',
+  '        self.pubalg = packet[0]\n        self.halg = packet[0]\n        del packet[0]\n\n        self.subpackets.parse(packet)\n', 'C08.c')
+T('C08', 'twin-message-new-compression-default-late', PGP, "        compression = kwargs.pop('compression', CompressionAlgorithm.ZIP)\n",
+  "        compression = kwargs.pop('compression', None)\n", more=[(PGP, '        if charset:\n            msg.charset = charset\n', '        if charset:\n            msg.charset = charset\n\n        if compression is None:\n            compression = CompressionAlgorithm.ZIP\n\n        if compression is not None:\n            msg._compression = compression\n')])
+T('C08', 'twin-sigv4-repaired', PK, '    def parse(self, packet):\n        super(Signature, self).parse(packet)\n        self.sigtype = packet[0]\n        del packet[0]\n',
+  '    def parse(self, packet):\n        super(Signature, self).parse(packet)\n        plen = len(packet)\n        self.sigtype = packet[0]\n        del packet[0]\n', more=[(PK, '        self.hash2 = packet[:2]\n        del packet[:2]\n\n        self.signature.parse(packet)\n', '        self.hash2 = packet[:2]\n        del packet[:2]\n\n        send = self.header.length - 1 - (plen - len(packet))\n        self.signature.parse(packet[:send])\n        del packet[:send]\n'), (SS, '        super(EmbeddedSignature, self).parse(packet)\n        self._sig.parse(packet)\n', '        super(EmbeddedSignature, self).parse(packet)\n        self._sig.header.length = self.header.length - 1\n        self._sig.parse(packet)\n')])
+T('C08', 'twin-sigv4-repaired-respelled', PK, '    def parse(self, packet):\n        super(Signature, self).parse(packet)\n        self.sigtype = packet[0]\n        del packet[0]\n',
+  '    def parse(self, packet):\n        super(Signature, self).parse(packet)\n        start = len(packet)\n        self.sigtype = packet[0]\n        del packet[0]\n', more=[(PK, '        self.hash2 = packet[:2]\n        del packet[:2]\n\n        self.signature.parse(packet)\n', '        self.hash2 = packet[:2]\n        del packet[:2]\n\n        consumed = start - len(packet)\n        rest = self.header.length - consumed - 1\n        self.signature.parse(packet[:rest])\n        del packet[:rest]\n'), (SS, '        super(EmbeddedSignature, self).parse(packet)\n        self._sig.parse(packet)\n', '        super(EmbeddedSignature, self).parse(packet)\n        self._sig.header.length = self.header.length - 1\n        self._sig.parse(packet)\n')])
+M('C08', 'sigv4-repaired-no-version-octet', PK, '    def parse(self, packet):\n        super(Signature, self).parse(packet)\n        self.sigtype = packet[0]\n        del packet[0]\n',
+  '    def parse(self, packet):\n        super(Signature, self).parse(packet)\n        plen = len(packet)\n        self.sigtype = packet[0]\n        del packet[0]\n', 'C08.d', more=[(PK, '        self.hash2 = packet[:2]\n        del packet[:2]\n\n        self.signature.parse(packet)\n', '        self.hash2 = packet[:2]\n        del packet[:2]\n\n        send = self.header.length - (plen - len(packet))\n        self.signature.parse(packet[:send])\n        del packet[:send]\n'), (SS, '        super(EmbeddedSignature, self).parse(packet)\n        self._sig.parse(packet)\n', '        super(EmbeddedSignature, self).parse(packet)\n        self._sig.header.length = self.header.length - 1\n        self._sig.parse(packet)\n')])
+M('C08', 'sigv4-repaired-minus-2', PK, '    def parse(self, packet):\n        super(Signature, self).parse(packet)\n        self.sigtype = packet[0]\n        del packet[0]\n',
+  '    def parse(self, packet):\n        super(Signature, self).parse(packet)\n        plen = len(packet)\n        self.sigtype = packet[0]\n        del packet[0]\n', 'C08.d', more=[(PK, '        self.hash2 = packet[:2]\n        del packet[:2]\n\n        self.signature.parse(packet)\n', '        self.hash2 = packet[:2]\n        del packet[:2]\n\n        send = self.header.length - 2 - (plen - len(packet))\n        self.signature.parse(packet[:send])\n        del packet[:send]\n'), (SS, '        super(EmbeddedSignature, self).parse(packet)\n        self._sig.parse(packet)\n', '        super(EmbeddedSignature, self).parse(packet)\n        self._sig.header.length = self.header.length - 1\n        self._sig.parse(packet)\n')])
+M('C08', 'sigv4-measured-late', PK, '    def parse(self, packet):\n        super(Signature, self).parse(packet)\n        self.sigtype = packet[0]\n        del packet[0]\n',
+  '    def parse(self, packet):\n        super(Signature, self).parse(packet)\n        self.sigtype = packet[0]\n        del packet[0]\n        plen = len(packet)\n', 'C08.d', more=[(PK, '        self.hash2 = packet[:2]\n        del packet[:2]\n\n        self.signature.parse(packet)\n', '        self.hash2 = packet[:2]\n        del packet[:2]\n\n        send = self.header.length - 1 - (plen - len(packet))\n        self.signature.parse(packet[:send])\n        del packet[:send]\n'), (SS, '        super(EmbeddedSignature, self).parse(packet)\n        self._sig.parse(packet)\n', '        super(EmbeddedSignature, self).parse(packet)\n        self._sig.header.length = self.header.length - 1\n        self._sig.parse(packet)\n')])
+M('C08', 'sigv4-repaired-sign-flipped', PK, '    def parse(self, packet):\n        super(Signature, self).parse(packet)\n        self.sigtype = packet[0]\n        del packet[0]\n',
+  '    def parse(self, packet):\n        super(Signature, self).parse(packet)\n        plen = len(packet)\n        self.sigtype = packet[0]\n        del packet[0]\n', 'C08.d', more=[(PK, '        self.hash2 = packet[:2]\n        del packet[:2]\n\n        self.signature.parse(packet)\n', '        self.hash2 = packet[:2]\n        del packet[:2]\n\n        send = self.header.length - 1 - (len(packet) - plen)\n        self.signature.parse(packet[:send])\n        del packet[:send]\n'), (SS, '        super(EmbeddedSignature, self).parse(packet)\n        self._sig.parse(packet)\n', '        super(EmbeddedSignature, self).parse(packet)\n        self._sig.header.length = self.header.length - 1\n        self._sig.parse(packet)\n')])
+M('C08', 'sigv4-bounded-not-consumed', PK, '    def parse(self, packet):\n        super(Signature, self).parse(packet)\n        self.sigtype = packet[0]\n        del packet[0]\n',
+  '    def parse(self, packet):\n        super(Signature, self).parse(packet)\n        plen = len(packet)\n        self.sigtype = packet[0]\n        del packet[0]\n', 'C08.a', more=[(PK, '        self.hash2 = packet[:2]\n        del packet[:2]\n\n        self.signature.parse(packet)\n', '        self.hash2 = packet[:2]\n        del packet[:2]\n\n        send = self.header.length - 1 - (plen - len(packet))\n        self.signature.parse(packet[:send])\n'), (SS, '        super(EmbeddedSignature, self).parse(packet)\n        self._sig.parse(packet)\n', '        super(EmbeddedSignature, self).parse(packet)\n        self._sig.header.length = self.header.length - 1\n        self._sig.parse(packet)\n')])
 # --- end C08 hardening
 M('C09', 'old-tag-shift', PT, "        tag |= (self.tag) if self._lenfmt else ((self.tag << 2) | {1: 0, 2: 1, 4: 2, 0: 3}[self.llen])", "        tag |= (self.tag) if self._lenfmt else ((self.tag << 1) | {1: 0, 2: 1, 4: 2, 0: 3}[self.llen])", 'C09.8')
 M('C09', 'tag-mask-1f', PT, "        _tag = (val & 0x3F) if self._lenfmt else ((val & 0x3C) >> 2)", "        _tag = (val & 0x1F) if self._lenfmt else ((val & 0x3C) >> 2)", 'C09.8')
